@@ -9,11 +9,30 @@ from hivemon.fingerprint import diff_states, fp_state
 from hivemon.monitors.base import Monitor
 
 
+# the last state of the previous simulation run in this worker process (with the step function and environment it belongs
+# to, and the fingerprint of what one step from it gave then)
+_CARRY: List[Any] = []
+
+
 class C16(Monitor):
     prop = "C16"
     hooks = ("apply",)
 
     def start(self, ctx):
+        if _CARRY:
+            # another scenario has been loaded since: a state saved from the earlier simulation still reads and steps the same
+            label, S0, su0, env0, f_read, f_step = _CARRY[0]
+            saved = list(env0.reporter.reports)
+            try:
+                ctx.count("c16_states_of_the_previous_simulation_checked_again")
+                if fp_state(S0, ids=True) != f_read:
+                    ctx.violate("C16", "retained-state-changed", f"the last state of the previous simulation in this process ({label}) reads differently after this scenario was loaded")
+                r0, _ = su0.update(S0, env0)
+                if fp_state(r0, ids=False) != f_step:
+                    ctx.violate("C16", "stepping-again-after-another-simulation-was-loaded-differs", f"the last state of the previous simulation in this process ({label}), stepped again after this scenario was loaded, gave a different result", diff=[])
+            finally:
+                env0.reporter.reports[:] = saved
+                del _CARRY[:]
         self.kept: List[Tuple[int, Any, str]] = [(-1, ctx.s, fp_state(ctx.s, ids=True))]
         self.rnd = random.Random(ctx.case.get("case_seed", 0))
         self.every = int(ctx.opts.get("c16_keep_every", 1))
@@ -146,3 +165,15 @@ class C16(Monitor):
 
     def finish(self, ctx):
         self._recheck(ctx, self.kept, "at the end of the run")
+        # hand the last state over to the next simulation of this process
+        try:
+            rp, env = ctx.rp, ctx.env
+            saved = list(env.reporter.reports)
+            n_log = len(ctx.gen_log)
+            r, _ = rp.u.step_update.update(rp.s, env)
+            env.reporter.reports[:] = saved
+            del ctx.gen_log[n_log:]
+            del _CARRY[:]
+            _CARRY.append((str(ctx.case.get("id")), rp.s, rp.u.step_update, env, fp_state(rp.s, ids=True), fp_state(r, ids=False)))
+        except Exception:
+            del _CARRY[:]
